@@ -273,6 +273,20 @@ func runCase(c *proto.Case) {
 			}
 			d, _ := json.Marshal(map[string]interface{}{"saved": sv, "live": lv})
 			emit(proto.Line{ID: c.ID, Step: i, Kind: "peek", Data: d})
+		case "racelog":
+			// hand over (and truncate) what the Go race detector has logged so far for this process
+			txt := ""
+			for _, kv := range strings.Fields(os.Getenv("GORACE")) {
+				if strings.HasPrefix(kv, "log_path=") {
+					fn := fmt.Sprintf("%s.%d", strings.TrimPrefix(kv, "log_path="), os.Getpid())
+					if b, err := os.ReadFile(fn); err == nil {
+						txt = string(b)
+						os.Truncate(fn, 0)
+					}
+				}
+			}
+			d, _ := json.Marshal(txt)
+			emit(proto.Line{ID: c.ID, Step: i, Kind: "peek", Data: d})
 		case "barrier":
 			s.wg.Wait()
 			s.quiesce()
